@@ -34,7 +34,7 @@ func init() {
 				structTagAndValueInOrder(c)
 				returnsUndecorated(c, "C17")
 			}},
-			{ID: "C17-R3", Title: "guarded fixed-width reads", Decides: "unmarshalling arbitrary bytes does not panic", Floor: 7, Run: func(c *core.Ctx) { c17r3(c); inputIndexGuarded(c, "tlv8"); polarityEverywhere(c, "C17") }},
+			{ID: "C17-R3", Title: "guarded fixed-width reads; constant indices into map-held slices are guarded", Decides: "unmarshalling arbitrary bytes does not panic", Floor: 7, Run: func(c *core.Ctx) { c17r3(c); inputIndexGuarded(c, "tlv8"); constIndexOfMapSliceGuarded(c, "tlv8"); polarityEverywhere(c, "C17") }},
 			{ID: "C17-R4", Title: "fragment merge by adjacency; fresh instance per list element", Decides: "long values and lists round-trip", Floor: 2, Run: func(c *core.Ctx) { c17r4(c); decoderTagAndAppend(c) }},
 			{ID: "C17-R5", Title: "declared tlv8 structs are encodable", Decides: "all RTP message types use supported kinds and valid tags", Floor: 20, Run: c17r5},
 			{ID: "C17-R6", Title: "list delimiter depends on the index only; Marshal keeps no shared state", Decides: "inline lists and successive Marshal results stay intact", Floor: 2, Run: c17r6},
